@@ -159,6 +159,9 @@ def build_mux(cfg):
 def gen_csrdec(rng):
     aw = rng.range(2, 8) if not rng.chance(0.15) else rng.range(1, 3)
     subs = []
+    if rng.chance(0.1):
+        return {"aw": aw, "dw": rng.choice([4, 8, 16, 32]), "al": 0,
+                "subs": [{"aw": aw, "name": None if rng.chance(0.5) else "all", "addr": None}]}
     for i in range(rng.range(0, 4)):
         if aw < 2:
             break
